@@ -8,7 +8,7 @@ The group-by key lists are NOT part of the hand-written model: `Frame.groupCols`
 `slices_preserved_*` theorems are re-proved against what `data_frame_input.py` says now. Before fix
 D9 `slices_preserved_keys` was false (country, currency, reinsurance_basis, loss_definition missing).
 -/
-import Bermuda.Lemmas.FrameLong
+import Bermuda.Lemmas.FrameArray
 namespace Bermuda.Properties.C14
 open Bermuda Bermuda.Frame Bermuda.Spec.C14
 
@@ -174,6 +174,28 @@ theorem fromLong_toLong {t : List Cell} {DK LK : List String} (h : WFlong t DK L
       ((toLongRows t).bind fun tb => fromLongRows tb []) = true :=
   Frame.fromLong_toLong h
 
+/-- **fromArrayFrame_toArrayFrame** (`RegularSingle`: a strictly sorted single-slice cumulative
+triangle, periods of `res ≥ 1` months starting on firsts of month from 1970 on and ending at the
+month end `res` months later, evaluations at month ends, one numeric scalar field; `res` handed to
+the reader). The array frame converts back to the same cells: periods, evaluation dates (column
+label = integer lag), metadata, numbers as floats. -/
+theorem fromArrayFrame_toArrayFrame {t : List Cell} {field : String} {res : Int} {md : Metadata}
+    (h : RegularSingle t field res md) :
+    okAnd (backSpec t)
+      ((toArrayFrame t field).bind fun rows => fromArrayFrame rows field md (some res)) = true :=
+  Frame.fromArrayFrame_toArrayFrame_explicit h
+
+/-- … and with the period resolution INFERRED by the library from the first two period starts,
+when these are `res` months apart: `round` of the fractional month lag (before fix D19 it was
+truncated, and a triangle starting in a short month came back wrong). Resolutions 1/3/6/12 are
+instances. -/
+theorem fromArrayFrame_toArrayFrame_inferred {t : List Cell} {field : String} {res : Int} {md : Metadata}
+    (h : RegularSingle t field res md)
+    (hp : ∃ p0 p1 rest, periodsOf t = p0 :: p1 :: rest ∧ monthToId p1.1 = monthToId p0.1 + res) :
+    okAnd (backSpec t)
+      ((toArrayFrame t field).bind fun rows => fromArrayFrame rows field md none) = true :=
+  Frame.fromArrayFrame_toArrayFrame_inferred h hp
+
 /-- `WFwide` is satisfiable: two slices that differ only in `country`, sampled cells -/
 theorem wfwide_example : WFwide ex ["coverage"] [] where
   ne := by decide
@@ -213,6 +235,36 @@ theorem wfwide_example : WFwide ex ["coverage"] [] where
     · intro _
       exact ⟨by decide, by rw [h2]; intro f hf; exact hf⟩
 
+/-- `RegularSingle` is satisfiable: -/
+def qCell (ps pe ev : Date) (v : Val) : Cell :=
+  { kind := .cumulative, ps := ps, pe := pe, ev := ev, values := [("paid_loss", v)], md := {} }
+
+/-- quarterly periods starting 2021-04-01 (the D19 witness) -/
+def exQ : List Cell :=
+  [qCell ⟨2021, 4, 1⟩ ⟨2021, 6, 30⟩ ⟨2021, 6, 30⟩ (.int 100),
+   qCell ⟨2021, 4, 1⟩ ⟨2021, 6, 30⟩ ⟨2021, 9, 30⟩ (.flt (5/2)),
+   qCell ⟨2021, 7, 1⟩ ⟨2021, 9, 30⟩ ⟨2021, 9, 30⟩ (.int 7)]
+
+theorem regular_example : RegularSingle exQ "paid_loss" 3 {} where
+  ne := by decide
+  sorted := by
+    unfold exQ
+    simp only [List.pairwise_cons, List.mem_cons, List.not_mem_nil, or_false, forall_eq_or_imp, forall_eq,
+      List.Pairwise.nil, and_true, false_implies, implies_true]
+    decide +kernel
+  kinds := by decide +kernel
+  notInc := by decide +kernel
+  canon := by decide +kernel
+  res1 := by decide
+  cell := by
+    intro c hc
+    simp only [exQ, List.mem_cons, List.not_mem_nil, or_false] at hc
+    rcases hc with rfl | rfl | rfl
+    · exact ⟨rfl, rfl, by decide +kernel, ⟨_, 100, rfl, rfl⟩, by decide, rfl, by decide, by decide +kernel, by decide, by decide⟩
+    · exact ⟨rfl, rfl, by decide +kernel, ⟨_, 5/2, rfl, rfl⟩, by decide, rfl, by decide, by decide +kernel, by decide, by decide⟩
+    · exact ⟨rfl, rfl, by decide +kernel, ⟨_, 7, rfl, rfl⟩, by decide, rfl, by decide, by decide +kernel, by decide, by decide⟩
+
+
 /-! ### statements not proved yet (the correspondence checks them on every run) -/
 
 -- OPEN fromWide_toWide_incremental
@@ -228,15 +280,6 @@ theorem wfwide_example : WFwide ex ["coverage"] [] where
 --     okAnd (fun out => longSpec t out && slicesSpec true t out)
 --       ((toLongRows t).bind fun tb => fromLongRows tb []) = true
 --   (incremental triangles with scalar values: one row per cell and field, no grouping, 0-d arrays)
-
--- OPEN fromArrayFrame_toArrayFrame
---   theorem fromArrayFrame_toArrayFrame {t : List Cell} {field : String} {res : Int}
---     (h : RegularSingleSlice t res) (hres : res ∈ [1, 3, 6, 12]) (md : Metadata) (hmd : ∀ c ∈ t, c.md = md) :
---     okAnd (backSpec (t.filter (·.values.contains field)))
---       ((toArrayFrame t field).bind fun rows => fromArrayFrame rows field md none) = true
---   (periods of `res` months starting on a first of month, evaluations at month ends with integer lags;
---    needs the C12 inverse law `addMonths pe (devLagMonths pe ev) = ev` on month ends, and — for the
---    inferred resolution — `roundHalfEven (devLagMonths p₀ p₁) = res`, which is where D19 was)
 
 -- OPEN fromMatrix_toMatrix
 --   theorem fromMatrix_toMatrix {t : List Cell} (h : MonthAlignedSemiRegular t) (hc : cumulative t)
